@@ -19,7 +19,17 @@ def run(rep):
     os.makedirs(home)
     with open(os.path.join(home, ".gitconfig"), "w") as f:
         f.write("[user]\n\tname = builder\n\temail = builder@example.invalid\n[init]\n\tdefaultBranch = main\n[safe]\n\tdirectory = *\n")
-    env = dict(os.environ, PYTHONPATH="/repo", PYTHONHASHSEED="0", CORPUS_TMP=scratch, HOME=home, GIT_CONFIG_NOSYSTEM="1", LC_ALL="C")
+    # the extension modules are the ones rebuilt from /repo/crates (build/rustext), not whatever lies in /repo/dulwich:
+    # every interpreter a script starts puts that directory first on the package's search path
+    shim = os.path.join(scratch, "shim")
+    os.makedirs(shim)
+    with open(os.path.join(shim, "sitecustomize.py"), "w") as f:
+        f.write("import os\next = os.environ.get('VERIF_RUSTEXT')\n"
+                "if ext and os.path.isdir(ext) and not os.environ.get('VERIF_NO_RUSTEXT'):\n"
+                "    try:\n        import dulwich\n        dulwich.__path__.insert(0, ext)\n    except Exception:\n        pass\n")
+    import build as B
+    env = dict(os.environ, PYTHONPATH=shim + os.pathsep + "/repo", PYTHONHASHSEED="0", CORPUS_TMP=scratch, HOME=home, GIT_CONFIG_NOSYSTEM="1",
+               LC_ALL="C", VERIF_RUSTEXT=B.RUSTEXT)
     env.pop("PYTHONSTARTUP", None)
     env.pop("GIT_CONFIG_GLOBAL", None)
     env.pop("XDG_CONFIG_HOME", None)
